@@ -249,14 +249,14 @@ theorem resync_unreachable_mismatch (cfg : Cfg) (evs : List Ev) (h : NoLoss evs)
     rw [this.2]; simp
 
 theorem next_step_a (cfg : Cfg) (s : St) (f : Fault) (hg : s.gone = false) (hst : s.stopped = false)
-    (hs : s.susp = false) : next cfg s (.step .a f) = replicaStep cfg s f := by
+    (hs : s.parked = false) : next cfg s (.step .a f) = replicaStep cfg s f := by
   simp [next, hg, Ev.who, peerEv, hst, hs]
 
 /-- Progress of a synced, undisturbed channel: with data pending and no fault, one step appends the
 next leader message at the follower's next position, byte-identical, and acknowledges it. -/
 theorem resync_progress (cfg : Cfg) (evs : List Ev) (hs : Synced (run cfg evs)) (hd : (run cfg evs).dz = false)
     (hg : (run cfg evs).gone = false) (hst : (run cfg evs).stopped = false)
-    (hsusp : (run cfg evs).susp = false) (hp : (run cfg evs).F.app < (run cfg evs).L.app) :
+    (hsusp : (run cfg evs).parked = false) (hp : (run cfg evs).F.app < (run cfg evs).L.app) :
     (next cfg (run cfg evs) (.step .a .none)).1.F.app = (run cfg evs).F.app + 1 ∧
     (next cfg (run cfg evs) (.step .a .none)).1.gack = (run cfg evs).F.app + 1 ∧
     (next cfg (run cfg evs) (.step .a .none)).1.F.get ((run cfg evs).F.app + 1)
@@ -272,7 +272,7 @@ theorem resync_progress (cfg : Cfg) (evs : List Ev) (hs : Synced (run cfg evs)) 
 `partition.replica` call ends with the channel synced. -/
 theorem resync_one_step (cfg : Cfg) (evs : List Ev) (hn : (run cfg evs).chan ≠ .ready)
     (hg : (run cfg evs).gone = false) (hst : (run cfg evs).stopped = false)
-    (hl : (run cfg evs).live = true) (hs : (run cfg evs).susp = false) :
+    (hl : (run cfg evs).live = true) (hs : (run cfg evs).parked = false) :
     Synced (next cfg (run cfg evs) (.step .a .none)).1 := by
   rw [next_step_a cfg _ _ hg hst hs]
   exact replicaStep_none_syncs cfg _ (full_run cfg evs).a hst hn hl
@@ -283,7 +283,7 @@ theorem resync_online (cfg : Cfg) (evs : List Ev) (hn : (run cfg evs).chan ≠ .
     (hg : (run cfg evs).gone = false) (hst : (run cfg evs).stopped = false)
     (hs : (run cfg evs).susp = true) :
     Synced (next cfg (run cfg evs) (.online .a .none)).1 := by
-  simp only [next, hg, Ev.who, peerEv, hst, hs, Bool.false_eq_true, if_false, if_true]
+  simp only [next, hg, Ev.who, peerEv, onlineEv, hst, hs, Bool.false_eq_true, if_false, if_true]
   exact replicaStep_none_syncs cfg _ (invA_mk (full_run cfg evs).a rfl rfl rfl rfl rfl rfl rfl rfl hst.symm) rfl hn rfl
 
 /-- A synced channel stays synced under fault-free steps: unconditionally in the tree as it is (where a
@@ -292,7 +292,7 @@ when the channel is in step (`dz = false`) — otherwise the mismatch forces a h
 `resync_mismatch_forces_handshake`. -/
 theorem resync_stays_synced (cfg : Cfg) (evs : List Ev) (h : Synced (run cfg evs))
     (hm : cfg.mfail = false ∨ (run cfg evs).dz = false)
-    (hg : (run cfg evs).gone = false) (hst : (run cfg evs).stopped = false) (hs : (run cfg evs).susp = false) :
+    (hg : (run cfg evs).gone = false) (hst : (run cfg evs).stopped = false) (hs : (run cfg evs).parked = false) :
     Synced (next cfg (run cfg evs) (.step .a .none)).1 := by
   rw [next_step_a cfg _ _ hg hst hs]
   have hb := full_run cfg evs
@@ -304,7 +304,7 @@ theorem resync_stays_synced (cfg : Cfg) (evs : List Ev) (h : Synced (run cfg evs
 /-- Repaired shape of Replica's else-branch: an event of follower A that ends in the mismatched-answer
 branch leaves the channel in `failure`, so the next replica call runs the handshake (`resync_one_step`). -/
 theorem resync_mismatch_forces_handshake (cfg : Cfg) (hm : cfg.mfail = true) (evs : List Ev) (f : Fault)
-    (hg : (run cfg evs).gone = false) (hst : (run cfg evs).stopped = false) (hs : (run cfg evs).susp = false)
+    (hg : (run cfg evs).gone = false) (hst : (run cfg evs).stopped = false) (hs : (run cfg evs).parked = false)
     (ho : (next cfg (run cfg evs) (.step .a f)).2 = .mismatch) :
     (next cfg (run cfg evs) (.step .a f)).1.chan = .failure := by
   rw [next_step_a cfg _ _ hg hst hs] at ho ⊢
@@ -316,7 +316,7 @@ ONE further fault-free call end synced, with the refused message re-sent, append
 acknowledged — no stream fault needed. (In the tree as it is this is false: `Neg.put_fault_wedges_channel`.) -/
 theorem resync_after_put_fault (cfg : Cfg) (hm : cfg.mfail = true) (evs : List Ev) (hsy : Synced (run cfg evs))
     (hd : (run cfg evs).dz = false) (hg : (run cfg evs).gone = false) (hst : (run cfg evs).stopped = false)
-    (hl : (run cfg evs).live = true) (hs : (run cfg evs).susp = false)
+    (hl : (run cfg evs).live = true) (hs : (run cfg evs).susp = false) (hpk : (run cfg evs).parked = false)
     (hp : (run cfg evs).F.app < (run cfg evs).L.app) :
     Synced (run cfg (evs ++ [.step .a .put, .step .a .none])) ∧
     (run cfg (evs ++ [.step .a .put, .step .a .none])).F.app = (run cfg evs).F.app + 1 ∧
@@ -325,11 +325,12 @@ theorem resync_after_put_fault (cfg : Cfg) (hm : cfg.mfail = true) (evs : List E
       (run cfg evs).L.get ((run cfg evs).F.app + 1) := by
   have hb := full_run cfg evs
   have hf := replicaStep_flags cfg (run cfg evs) .put hl hs
+  have hfp := replicaStep_parked cfg (run cfg evs) .put hl hpk hs
   have e1 : run cfg (evs ++ [.step .a .put, .step .a .none]) =
       (replicaStep cfg (replicaStep cfg (run cfg evs) .put).1 .none).1 := by
     have : evs ++ [Ev.step .a .put, Ev.step .a .none] = (evs ++ [Ev.step .a .put]) ++ [Ev.step .a .none] := by simp
-    rw [this, run_snoc, run_snoc, next_step_a cfg _ _ hg hst hs,
-      next_step_a cfg _ _ (hf.2.2.2.trans hg) (hf.2.2.1.trans hst) hf.2.1]
+    rw [this, run_snoc, run_snoc, next_step_a cfg _ _ hg hst hpk,
+      next_step_a cfg _ _ (hf.2.2.2.trans hg) (hf.2.2.1.trans hst) hfp.1]
   rw [e1]
   exact replicaStep_after_put_fault cfg _ hb.a hst hsy hd hp hl hm
 
@@ -340,7 +341,7 @@ to send (nothing is pending then, and the first later message makes the next cal
 after that resynchronise). -/
 theorem resync_two_steps (cfg : Cfg) (evs : List Ev)
     (hg : (run cfg evs).gone = false) (hst : (run cfg evs).stopped = false)
-    (hl : (run cfg evs).live = true) (hs : (run cfg evs).susp = false) :
+    (hl : (run cfg evs).live = true) (hs : (run cfg evs).susp = false) (hpk : (run cfg evs).parked = false) :
     Synced (run cfg (evs ++ [.step .a .none, .step .a .none])) ∨
     ((run cfg evs).chan = .ready ∧ (run cfg evs).stream = .broken ∧ (run cfg evs).L.app ≤ (run cfg evs).cons) := by
   have hb := full_run cfg evs
@@ -348,8 +349,8 @@ theorem resync_two_steps (cfg : Cfg) (evs : List Ev)
   have e1 : run cfg (evs ++ [.step .a .none, .step .a .none]) =
       (replicaStep cfg (replicaStep cfg (run cfg evs) .none).1 .none).1 := by
     have : evs ++ [Ev.step .a .none, Ev.step .a .none] = (evs ++ [Ev.step .a .none]) ++ [Ev.step .a .none] := by simp
-    rw [this, run_snoc, run_snoc, next_step_a cfg _ _ hg hst hs,
-      next_step_a cfg _ _ (hf.2.2.2.trans hg) (hf.2.2.1.trans hst) hf.2.1]
+    rw [this, run_snoc, run_snoc, next_step_a cfg _ _ hg hst hpk,
+      next_step_a cfg _ _ (hf.2.2.2.trans hg) (hf.2.2.1.trans hst) (replicaStep_parked cfg (run cfg evs) .none hl hpk hs).1]
   rw [e1]
   exact two_steps_sync cfg _ hb.a hb.bndA hst hl hs
 
@@ -357,7 +358,7 @@ theorem resync_two_steps (cfg : Cfg) (evs : List Ev)
 `min (appended + k, leader appended)` and the channel stays synced. -/
 theorem resync_catch_up (cfg : Cfg) (evs : List Ev) (k : Nat) (hsy : Synced (run cfg evs))
     (hd : (run cfg evs).dz = false) (hg : (run cfg evs).gone = false) (hst : (run cfg evs).stopped = false)
-    (hl : (run cfg evs).live = true) (hs : (run cfg evs).susp = false) :
+    (hl : (run cfg evs).live = true) (hs : (run cfg evs).susp = false) (hpk : (run cfg evs).parked = false) :
     Synced (run cfg (evs ++ List.replicate k (.step .a .none))) ∧
     (run cfg (evs ++ List.replicate k (.step .a .none))).F.app =
       min ((run cfg evs).F.app + k) (max (run cfg evs).F.app (run cfg evs).L.app) ∧
@@ -372,16 +373,57 @@ theorem resync_catch_up (cfg : Cfg) (evs : List Ev) (k : Nat) (hsy : Synced (run
     have hf := replicaStep_flags cfg (run cfg evs) .none hl hs
     have hp := replicaStep_none_progress cfg _ hb.a hst hsy hd
     have e1 : run cfg (evs ++ [.step .a .none]) = (replicaStep cfg (run cfg evs) .none).1 := by
-      rw [run_snoc, next_step_a cfg _ _ hg hst hs]
+      rw [run_snoc, next_step_a cfg _ _ hg hst hpk]
+    have hfp := replicaStep_parked cfg (run cfg evs) .none hl hpk hs
     have e2 : evs ++ List.replicate (k + 1) (Ev.step .a .none) = (evs ++ [Ev.step .a .none]) ++ List.replicate k (Ev.step .a .none) := by
       simp [List.replicate_succ]
     have := ih (evs ++ [.step .a .none]) (by rw [e1]; exact hp.1) (by rw [e1]; exact hp.2.1)
-      (by rw [e1]; exact hf.2.2.2.trans hg) (by rw [e1]; exact hf.2.2.1.trans hst) (by rw [e1]; exact hf.1) (by rw [e1]; exact hf.2.1)
+      (by rw [e1]; exact hf.2.2.2.trans hg) (by rw [e1]; exact hf.2.2.1.trans hst) (by rw [e1]; exact hf.1) (by rw [e1]; exact hf.2.1) (by rw [e1]; exact hfp.1)
     rw [e2]
     refine ⟨this.1, ?_, ?_⟩
     · rw [this.2.1, e1, hp.2.2.2.1, hp.2.2.1]
       split <;> omega
     · rw [this.2.2, e1, hp.2.2.1]
+
+/-- The wake-up is never lost (plain blocking send in `handleNodeStateChangeEvent`): in every reachable
+state a loop that is blocked in — or on its way into — `<-r.suspend` still has its suspend flag set, so
+the next online notification wins the CAS and hands the loop its token. (With a non-blocking send this
+is false: `Neg.wakeup_lost_if_nonblocking`.) -/
+theorem online_never_lost (cfg : Cfg) (hw : cfg.wake = true) (evs : List Ev) :
+    ((run cfg evs).parked = true → (run cfg evs).susp = true) ∧
+    ((run cfg evs).parked2 = true → (run cfg evs).susp2 = true) :=
+  ⟨(wk_run cfg hw evs).a, (wk_run cfg hw evs).b⟩
+
+/-- ... hence a parked loop is always released by the online notification, and without a further fault
+the channel ends synced -/
+theorem resync_parked_released (cfg : Cfg) (hw : cfg.wake = true) (evs : List Ev) (hp : (run cfg evs).parked = true)
+    (hn : (run cfg evs).chan ≠ .ready) (hg : (run cfg evs).gone = false) (hst : (run cfg evs).stopped = false) :
+    Synced (next cfg (run cfg evs) (.online .a .none)).1 ∧ (next cfg (run cfg evs) (.online .a .none)).1.parked = false := by
+  have hs := (wk_run cfg hw evs).a hp
+  simp only [next, hg, Ev.who, peerEv, onlineEv, hst, hs, Bool.false_eq_true, if_false, if_true]
+  exact ⟨replicaStep_none_syncs cfg _ (invA_mk (full_run cfg evs).a rfl rfl rfl rfl rfl rfl rfl rfl hst.symm) rfl hn rfl,
+    (replicaStep_parked cfg _ .none rfl rfl rfl).1⟩
+
+/-- The online notification may land at ANY point after the loop has marked itself suspended — in
+particular between `isSuspend.CompareAndSwap(false, true)` and the receive on `r.suspend` (event
+`steponl`): the blocking send waits for the receive, the loop is released at once, re-runs IsReady and,
+without a further fault, ends synced and not parked. -/
+theorem resync_online_in_window (cfg : Cfg) (hw : cfg.wake = true) (evs : List Ev)
+    (hn : (run cfg evs).chan ≠ .ready) (hl : (run cfg evs).live = false) (hp : (run cfg evs).parked = false)
+    (hg : (run cfg evs).gone = false) (hst : (run cfg evs).stopped = false) :
+    Synced (next cfg (run cfg evs) (.steponl .a .none)).1 ∧ (next cfg (run cfg evs) (.steponl .a .none)).1.parked = false := by
+  have hc : (run cfg evs).stopped = false ∧ (run cfg evs).parked = false ∧ (run cfg evs).chan ≠ .ready ∧ (run cfg evs).live = false :=
+    ⟨hst, hp, hn, hl⟩
+  simp only [next, hg, Ev.who, peerEv, Bool.false_eq_true, if_false]
+  rw [if_pos hc]
+  simp only [hw, if_true]
+  refine ⟨replicaStep_none_syncs cfg _
+      (invA_mk (invc_notready (ch' := .failure) (st' := (run cfg evs).stream) (dz' := (run cfg evs).dz) (full_run cfg evs).a (fun x => by cases x))
+        rfl rfl rfl rfl rfl rfl rfl rfl) hst (fun x => by cases x) rfl, ?_⟩
+  refine (replicaStep_parked cfg _ .none ?_ ?_ ?_).1
+  · rfl
+  · exact hp
+  · rfl
 
 /-! ## 5. ties to the regenerated facts (replica/*.go, app/storage/rpc/replica.go, pkg/queue/*.go) -/
 
@@ -426,6 +468,15 @@ theorem handler_replicaLog_args : C08.handlerReplicaLogArgs = ["req.ReplicaIndex
 
 /-- remoteReplicator.Replica acknowledges iff `resp.AckIndex == resp.ReplicaIndex`, with `resp.AckIndex` -/
 theorem ackCond_eq (a r : Int) : C08.ackCond a r = decide (a = r) := rfl
+
+/-- handleNodeStateChangeEvent: `state == NodeOnline`, `isSuspend.CompareAndSwap(true, false)`, then the
+wake-up as a PLAIN BLOCKING send on `r.suspend` (the model's `Cfg.wake` is this fact); IsReady's only
+receive is the one on `r.suspend` -/
+theorem wake_send_blocking : C08.wakeSendBlocking = true := rfl
+theorem online_handler_sends : C08.onlineHandlerSends = ["plain: r.suspend <- struct{}{}"] := rfl
+theorem online_handler_conds : C08.onlineHandlerConds =
+    ["state == models.NodeOnline", "r.isSuspend.CompareAndSwap(true, false)"] := rfl
+theorem isReady_recvs : C08.isReadyRecvs = ["<-r.suspend"] := rfl
 
 theorem replica_ack_arg : C08.replicaAckArg = "resp.AckIndex" := rfl
 
@@ -507,7 +558,7 @@ theorem isReady_reset_args : C08.isReadyResetArgs =
 set_option linter.unusedSimpArgs false in
 /-- the guard of ResetAppendIndex is the one the model is run with (`Cfg.fixed := aheadFixed`) -/
 theorem isReady_ahead (r a : Int) :
-    C08.aheadCond r (C08.nextReplicaIdx r) a = aheadFires { fixed := C08.aheadFixed, mfail := C08.mismatchSetsFailure } r a := by
+    C08.aheadCond r (C08.nextReplicaIdx r) a = aheadFires { fixed := C08.aheadFixed, mfail := C08.mismatchSetsFailure, wake := C08.wakeSendBlocking } r a := by
   simp only [C08.aheadCond, C08.aheadFixed, C08.nextReplicaIdx, aheadFires]
   first
     | rfl
@@ -613,35 +664,35 @@ example : NoLoss sample := by
   intro e he k hk
   subst hk
   simp [sample] at he
-example : Synced (run { fixed := true, mfail := false } sample) := by decide
-example : (run { fixed := true, mfail := false } sample).F.app = 2 ∧ (run { fixed := true, mfail := false } sample).gack = 2 ∧
-    (run { fixed := true, mfail := false } sample).F.get 1 = some [2] ∧ (run { fixed := true, mfail := false } sample).F2.app = 2 := by decide
+example : Synced (run { fixed := true, mfail := false, wake := true } sample) := by decide
+example : (run { fixed := true, mfail := false, wake := true } sample).F.app = 2 ∧ (run { fixed := true, mfail := false, wake := true } sample).gack = 2 ∧
+    (run { fixed := true, mfail := false, wake := true } sample).F.get 1 = some [2] ∧ (run { fixed := true, mfail := false, wake := true } sample).F2.app = 2 := by decide
 /-- `resync_progress`'s hypotheses are satisfiable -/
-example : Synced (run { fixed := true, mfail := false } [.append [1], .step .a .none, .append [2]]) ∧
-    (run { fixed := true, mfail := false } [.append [1], .step .a .none, .append [2]]).F.app <
-      (run { fixed := true, mfail := false } [.append [1], .step .a .none, .append [2]]).L.app := by decide
+example : Synced (run { fixed := true, mfail := false, wake := true } [.append [1], .step .a .none, .append [2]]) ∧
+    (run { fixed := true, mfail := false, wake := true } [.append [1], .step .a .none, .append [2]]).F.app <
+      (run { fixed := true, mfail := false, wake := true } [.append [1], .step .a .none, .append [2]]).L.app := by decide
 /-- `resync_handshake`'s hypotheses are satisfiable, in the branch that resets the follower -/
-example : (run { fixed := true, mfail := false } [.append [1], .step .a .none, .flose .a, .append [2], .step .a .none]).chan ≠ .ready ∧
-    (isReady { fixed := true, mfail := false } (run { fixed := true, mfail := false } [.append [1], .step .a .none, .flose .a, .append [2], .step .a .none]) .none).2 = true ∧
-    (isReady { fixed := true, mfail := false } (run { fixed := true, mfail := false } [.append [1], .step .a .none, .flose .a, .append [2], .step .a .none]) .none).1.F.ack = 0 := by
+example : (run { fixed := true, mfail := false, wake := true } [.append [1], .step .a .none, .flose .a, .append [2], .step .a .none]).chan ≠ .ready ∧
+    (isReady { fixed := true, mfail := false, wake := true } (run { fixed := true, mfail := false, wake := true } [.append [1], .step .a .none, .flose .a, .append [2], .step .a .none]) .none).2 = true ∧
+    (isReady { fixed := true, mfail := false, wake := true } (run { fixed := true, mfail := false, wake := true } [.append [1], .step .a .none, .flose .a, .append [2], .step .a .none]) .none).1.F.ack = 0 := by
   decide
 /-- `resync_one_step`'s, `resync_online`'s and `resync_two_steps`' hypotheses are satisfiable -/
-example : (run { fixed := true, mfail := false } [.append [1], .step .a .send]).chan ≠ .ready ∧
-    (run { fixed := true, mfail := false } [.append [1], .step .a .send]).live = true ∧
-    (run { fixed := true, mfail := false } [.append [1], .step .a .send]).susp = false := by decide
-example : (run { fixed := true, mfail := false } [.offline .a, .step .a .none]).chan ≠ .ready ∧
-    (run { fixed := true, mfail := false } [.offline .a, .step .a .none]).susp = true := by decide
+example : (run { fixed := true, mfail := false, wake := true } [.append [1], .step .a .send]).chan ≠ .ready ∧
+    (run { fixed := true, mfail := false, wake := true } [.append [1], .step .a .send]).live = true ∧
+    (run { fixed := true, mfail := false, wake := true } [.append [1], .step .a .send]).susp = false := by decide
+example : (run { fixed := true, mfail := false, wake := true } [.offline .a, .step .a .none]).chan ≠ .ready ∧
+    (run { fixed := true, mfail := false, wake := true } [.offline .a, .step .a .none]).susp = true := by decide
 /-- `expire_safe` is about a reachable situation: the expiry check stops a drained group, keeps an undrained one -/
-example : (run { fixed := true, mfail := false } [.join .b, .append [1], .step .a .none, .expire]).stopped = true ∧
-    (run { fixed := true, mfail := false } [.join .b, .append [1], .step .a .none, .expire]).stopped2 = false ∧
-    (run { fixed := true, mfail := false } [.join .b, .append [1], .step .a .none, .expire]).gone = false := by decide
+example : (run { fixed := true, mfail := false, wake := true } [.join .b, .append [1], .step .a .none, .expire]).stopped = true ∧
+    (run { fixed := true, mfail := false, wake := true } [.join .b, .append [1], .step .a .none, .expire]).stopped2 = false ∧
+    (run { fixed := true, mfail := false, wake := true } [.join .b, .append [1], .step .a .none, .expire]).gone = false := by decide
 /-- `join_sound`: a follower added to a partition whose log holds un-released messages starts at the
 queue's ack and is sent the whole backlog -/
-example : (run { fixed := true, mfail := false } [.append [1], .append [2], .step .a .none, .join .b]).gack2 = -1 ∧
-    (run { fixed := true, mfail := false } [.append [1], .append [2], .step .a .none, .join .b, .step .b .none, .step .b .none]).F2.app = 1 := by
+example : (run { fixed := true, mfail := false, wake := true } [.append [1], .append [2], .step .a .none, .join .b]).gack2 = -1 ∧
+    (run { fixed := true, mfail := false, wake := true } [.append [1], .append [2], .step .a .none, .join .b, .step .b .none, .step .b .none]).F2.app = 1 := by
   decide
 /-- restoring an OLDER image after a newer one is expressible -/
-example : (run { fixed := true, mfail := false } [.append [1], .lsnap, .append [2], .lsnap, .append [3], .lrestore 0, .lrestore 1]).L.app = 0 := by
+example : (run { fixed := true, mfail := false, wake := true } [.append [1], .lsnap, .append [2], .lsnap, .append [3], .lrestore 0, .lrestore 1]).L.app = 0 := by
   decide
 
 /-! ## 7. where the code violates the property -/
@@ -663,7 +714,7 @@ theorem reappend_before_handshake (cfg : Cfg) :
     (run cfg witnessB).L.get 5 = some [0xb5] ∧ (run cfg witnessB).F.get 5 = some [0xa5] ∧
     (run cfg witnessB).gack = 6 := by
   cases cfg with
-  | mk fixed mfail => cases fixed <;> cases mfail <;> decide
+  | mk fixed mfail wake => cases fixed <;> cases mfail <;> cases wake <;> decide
 
 /-- the full-strength agreement clause for histories with leader tail loss ("whenever the
 channel is synced, a position held by both holds the same bytes") does not hold, for either shape
@@ -685,16 +736,16 @@ def witnessD : List Ev :=
    .lsnap, .append [0xa4], .step .a .none, .lrestore 0, .step .a .none, .append [0xb4], .append [0xb5], .step .a .none]
 
 theorem follower_ahead_by_one :
-    Synced (run { fixed := false, mfail := false } witnessD) ∧
-    (run { fixed := false, mfail := false } witnessD).L.get 4 = some [0xb4] ∧ (run { fixed := false, mfail := false } witnessD).F.get 4 = some [0xa4] ∧
-    (run { fixed := false, mfail := false } witnessD).F.get 5 = some [0xb5] ∧ (run { fixed := false, mfail := false } witnessD).gack = 5 := by
+    Synced (run { fixed := false, mfail := false, wake := true } witnessD) ∧
+    (run { fixed := false, mfail := false, wake := true } witnessD).L.get 4 = some [0xb4] ∧ (run { fixed := false, mfail := false, wake := true } witnessD).F.get 4 = some [0xa4] ∧
+    (run { fixed := false, mfail := false, wake := true } witnessD).F.get 5 = some [0xb5] ∧ (run { fixed := false, mfail := false, wake := true } witnessD).gack = 5 := by
   decide
 
 theorem follower_ahead_by_one_fixed :
-    Synced (run { fixed := true, mfail := false } witnessD) ∧
-    (run { fixed := true, mfail := false } witnessD).L.get 4 = none ∧ (run { fixed := true, mfail := false } witnessD).F.get 4 = some [0xa4] ∧
-    (run { fixed := true, mfail := false } witnessD).L.get 5 = some [0xb4] ∧ (run { fixed := true, mfail := false } witnessD).F.get 5 = some [0xb4] ∧
-    (run { fixed := true, mfail := false } witnessD).L.get 6 = some [0xb5] := by
+    Synced (run { fixed := true, mfail := false, wake := true } witnessD) ∧
+    (run { fixed := true, mfail := false, wake := true } witnessD).L.get 4 = none ∧ (run { fixed := true, mfail := false, wake := true } witnessD).F.get 4 = some [0xa4] ∧
+    (run { fixed := true, mfail := false, wake := true } witnessD).L.get 5 = some [0xb4] ∧ (run { fixed := true, mfail := false, wake := true } witnessD).F.get 5 = some [0xb4] ∧
+    (run { fixed := true, mfail := false, wake := true } witnessD).L.get 6 = some [0xb5] := by
   decide
 
 /-- (3) Two followers. Both have replicated 0..3; A also got 4..6; the leader loses its tail back to 3.
@@ -719,20 +770,20 @@ theorem other_follower_moves_group (cfg : Cfg) :
     (run cfg witnessE0).gack2 = 6 ∧ (run cfg witnessE0).cons2 = 6 ∧ (run cfg witnessE0).F2.app = 3 ∧
     (run cfg witnessE0).L.ack = 6 := by
   cases cfg with
-  | mk fixed mfail => cases fixed <;> cases mfail <;> decide
+  | mk fixed mfail wake => cases fixed <;> cases mfail <;> cases wake <;> decide
 
 /-- the next message for B ends in the mismatched-answer branch (either shape) -/
 theorem mismatch_reachable (cfg : Cfg) :
     (next cfg (run cfg (witnessE0 ++ [.append [0xb7]])) (.step .b .none)).2 = .mismatch := by
   cases cfg with
-  | mk fixed mfail => cases fixed <;> cases mfail <;> decide
+  | mk fixed mfail wake => cases fixed <;> cases mfail <;> cases wake <;> decide
 
 /-- the tree as it is: B's channel stays `ready`, every later message is refused, B never gets b7, b8 -/
 theorem other_follower_wedged (fixed : Bool) :
-    (run { fixed := fixed, mfail := false } witnessE).chan2 = .ready ∧ (run { fixed := fixed, mfail := false } witnessE).stream2 = .up ∧
-    (run { fixed := fixed, mfail := false } witnessE).gack2 = 6 ∧ (run { fixed := fixed, mfail := false } witnessE).F2.app = 3 ∧
-    (run { fixed := fixed, mfail := false } witnessE).cons2 = 8 ∧ (run { fixed := fixed, mfail := false } witnessE).F.app = 8 ∧
-    (next { fixed := fixed, mfail := false } (run { fixed := fixed, mfail := false } (witnessE ++ [.append [0xb9]])) (.step .b .none)).2 = .mismatch := by
+    (run { fixed := fixed, mfail := false, wake := true } witnessE).chan2 = .ready ∧ (run { fixed := fixed, mfail := false, wake := true } witnessE).stream2 = .up ∧
+    (run { fixed := fixed, mfail := false, wake := true } witnessE).gack2 = 6 ∧ (run { fixed := fixed, mfail := false, wake := true } witnessE).F2.app = 3 ∧
+    (run { fixed := fixed, mfail := false, wake := true } witnessE).cons2 = 8 ∧ (run { fixed := fixed, mfail := false, wake := true } witnessE).F.app = 8 ∧
+    (next { fixed := fixed, mfail := false, wake := true } (run { fixed := fixed, mfail := false, wake := true } (witnessE ++ [.append [0xb9]])) (.step .b .none)).2 = .mismatch := by
   cases fixed <;> decide
 
 /-- the repaired shape: the first refused message puts B's channel into `failure`; the forced handshake
@@ -740,14 +791,14 @@ finds B behind the (moved) ack and resets B to 7: B gets b7 and b8 and the chann
 B's log now starts after 6: positions 4..6 (dropped by the leader at `ResetAppendIndex`, counted as
 acknowledged by B) never reach B. The wedge is gone, the unsound acknowledgement is not. -/
 theorem other_follower_repaired (fixed : Bool) :
-    (run { fixed := fixed, mfail := true } (witnessE ++ [.step .b .none])).chan2 = .ready ∧
-    (run { fixed := fixed, mfail := true } (witnessE ++ [.step .b .none])).stream2 = .up ∧
-    (run { fixed := fixed, mfail := true } (witnessE ++ [.step .b .none])).dz2 = false ∧
-    (run { fixed := fixed, mfail := true } (witnessE ++ [.step .b .none])).F2.ack = 6 ∧
-    (run { fixed := fixed, mfail := true } (witnessE ++ [.step .b .none])).F2.app = 8 ∧
-    (run { fixed := fixed, mfail := true } (witnessE ++ [.step .b .none])).gack2 = 8 ∧
-    (run { fixed := fixed, mfail := true } (witnessE ++ [.step .b .none])).F2.get 8 = some [0xb8] ∧
-    (run { fixed := fixed, mfail := true } (witnessE ++ [.step .b .none])).F2.get 5 = none := by
+    (run { fixed := fixed, mfail := true, wake := true } (witnessE ++ [.step .b .none])).chan2 = .ready ∧
+    (run { fixed := fixed, mfail := true, wake := true } (witnessE ++ [.step .b .none])).stream2 = .up ∧
+    (run { fixed := fixed, mfail := true, wake := true } (witnessE ++ [.step .b .none])).dz2 = false ∧
+    (run { fixed := fixed, mfail := true, wake := true } (witnessE ++ [.step .b .none])).F2.ack = 6 ∧
+    (run { fixed := fixed, mfail := true, wake := true } (witnessE ++ [.step .b .none])).F2.app = 8 ∧
+    (run { fixed := fixed, mfail := true, wake := true } (witnessE ++ [.step .b .none])).gack2 = 8 ∧
+    (run { fixed := fixed, mfail := true, wake := true } (witnessE ++ [.step .b .none])).F2.get 8 = some [0xb8] ∧
+    (run { fixed := fixed, mfail := true, wake := true } (witnessE ++ [.step .b .none])).F2.get 5 = none := by
   cases fixed <;> decide
 
 /-- the un-hedged soundness clause ("a ready channel with a live stream never treats a position as
@@ -771,25 +822,34 @@ def witnessP : List Ev :=
   [.append [0xa0], .step .a .none, .append [0xa1], .step .a .put, .append [0xa2], .step .a .none, .append [0xa3], .step .a .none]
 
 theorem put_fault_wedges_channel (fixed : Bool) :
-    Synced (run { fixed := fixed, mfail := false } witnessP) ∧ (run { fixed := fixed, mfail := false } witnessP).gack = 0 ∧
-    (run { fixed := fixed, mfail := false } witnessP).F.app = 0 ∧
-    (run { fixed := fixed, mfail := false } witnessP).cons = 3 ∧ (run { fixed := fixed, mfail := false } witnessP).L.app = 3 ∧
-    (next { fixed := fixed, mfail := false } (run { fixed := fixed, mfail := false } (witnessP ++ [.append [0xa4]])) (.step .a .none)).2 = .mismatch := by
+    Synced (run { fixed := fixed, mfail := false, wake := true } witnessP) ∧ (run { fixed := fixed, mfail := false, wake := true } witnessP).gack = 0 ∧
+    (run { fixed := fixed, mfail := false, wake := true } witnessP).F.app = 0 ∧
+    (run { fixed := fixed, mfail := false, wake := true } witnessP).cons = 3 ∧ (run { fixed := fixed, mfail := false, wake := true } witnessP).L.app = 3 ∧
+    (next { fixed := fixed, mfail := false, wake := true } (run { fixed := fixed, mfail := false, wake := true } (witnessP ++ [.append [0xa4]])) (.step .a .none)).2 = .mismatch := by
   cases fixed <;> decide
 
 /-- ... and the first stream fault afterwards (noticed with the next message) repairs it -/
 theorem put_fault_recovers_after_stream_fault (fixed : Bool) :
-    Synced (run { fixed := fixed, mfail := false } (witnessP ++ [.frestart .a, .append [0xa4], .step .a .none, .step .a .none, .step .a .none, .step .a .none, .step .a .none])) ∧
-    (run { fixed := fixed, mfail := false } (witnessP ++ [.frestart .a, .append [0xa4], .step .a .none, .step .a .none, .step .a .none, .step .a .none, .step .a .none])).F.app = 4 := by
+    Synced (run { fixed := fixed, mfail := false, wake := true } (witnessP ++ [.frestart .a, .append [0xa4], .step .a .none, .step .a .none, .step .a .none, .step .a .none, .step .a .none])) ∧
+    (run { fixed := fixed, mfail := false, wake := true } (witnessP ++ [.frestart .a, .append [0xa4], .step .a .none, .step .a .none, .step .a .none, .step .a .none, .step .a .none])).F.app = 4 := by
   cases fixed <;> decide
 
 /-- the repaired shape on the same history: the follower has caught up by the end, no stream fault needed
 (the general statement is `resync_after_put_fault`) -/
 theorem put_fault_repaired (fixed : Bool) :
-    Synced (run { fixed := fixed, mfail := true } (witnessP ++ [.step .a .none])) ∧
-    (run { fixed := fixed, mfail := true } (witnessP ++ [.step .a .none])).F.app = 3 ∧
-    (run { fixed := fixed, mfail := true } (witnessP ++ [.step .a .none])).gack = 3 := by
+    Synced (run { fixed := fixed, mfail := true, wake := true } (witnessP ++ [.step .a .none])) ∧
+    (run { fixed := fixed, mfail := true, wake := true } (witnessP ++ [.step .a .none])).F.app = 3 ∧
+    (run { fixed := fixed, mfail := true, wake := true } (witnessP ++ [.step .a .none])).gack = 3 := by
   cases fixed <;> decide
+
+/-- (5, not in the tree: what `Tie.wake_send_blocking` and `online_never_lost` exclude) with a non-blocking
+wake-up an online notification that lands between the loop's CAS and its receive is dropped: the loop is
+parked with `isSuspend = false`, and no later notification can release it -/
+theorem wakeup_lost_if_nonblocking (fixed mfail : Bool) :
+    (run { fixed := fixed, mfail := mfail, wake := false } [.offline .a, .steponl .a .none]).parked = true ∧
+    (run { fixed := fixed, mfail := mfail, wake := false } [.offline .a, .steponl .a .none]).susp = false ∧
+    (run { fixed := fixed, mfail := mfail, wake := false } [.offline .a, .steponl .a .none, .offline .a, .online .a .none]).parked = true := by
+  cases fixed <;> cases mfail <;> decide
 
 end Neg
 
